@@ -231,6 +231,11 @@ def run(ctx):
         for p in ps:
             # YAML: each file is named `.yaml` or `.yml` (both are documented)
             p["yml"] = {k for k in p["files"] if rng.chance(1, 2)}
+        # the `locales-dir` option: a dot-directory, a nested one, the documented `./dir` spelling, a directory shared outside the crate
+        for d in (".i18n", "./loc", "a/b", "../shared/locales", "i18n"):
+            q = proj.gen_project(rng, {"fk": False})
+            q["locales_dir"] = d
+            ps.append(q)
         # an explicitly empty namespace list: nothing is read, whatever lies in the directory
         for _ in range(3):
             q = proj.gen_project(rng, {"fk": False})
